@@ -168,8 +168,33 @@ let do_alloc root last =
      done
    with End_of_file -> ())
 
+(* ---------------- directory hash-chain model (Model/Chain.v) ---------------- *)
+(* adfm chain <intl 0|1> : reads lines "ins <hexname> <blk>" / "del <hexname>" from stdin; after each prints
+   "r <result>" and the directory state "S slot=blk:hexname,blk:hexname;slot=..." *)
+let do_chain intl =
+  let d = ref empty_dir in
+  let fuel = nat_of_int 4000 in
+  let show () =
+    let st = dump_dir fuel !d in
+    print_endline ("S " ^ String.concat ";" (List.map (fun (sl, ch) ->
+        zs sl ^ "=" ^ String.concat "," (List.map (fun (b, nm) -> zs b ^ ":" ^ hex_of_bytes (ints_of_zl nm)) ch)) st)) in
+  (try
+     while true do
+       let line = input_line stdin in
+       match List.filter (fun s -> s <> "") (String.split_on_char ' ' line) with
+       | ["ins"; nm; blk] ->
+         let (d', r) = cstep intl fuel !d (CIns (zlist_of_ints (bytes_of_hex nm), z_of_int (int_of_string blk))) in
+         d := d'; print_endline ("r " ^ zs r); show ()
+       | ["del"; nm] ->
+         let (d', r) = cstep intl fuel !d (CDel (zlist_of_ints (bytes_of_hex nm))) in
+         d := d'; print_endline ("r " ^ zs r); show ()
+       | _ -> ()
+     done
+   with End_of_file -> ())
+
 let () =
   match Array.to_list Sys.argv with
+  | [_; "chain"; intl] -> do_chain (intl <> "0")
   | [_; "alloc"; root; last] -> do_alloc (int_of_string root) (int_of_string last)
   | [_; "decode"; img; first; nb; strict] -> do_decode img (int_of_string first) (int_of_string nb) (strict <> "0")
   | [_; "spec"; script] -> do_spec script
